@@ -13,8 +13,10 @@ from pbt.core import clause, enum_clause
 PROPERTY = "C09"
 CLAUSES = []
 ASSUMPTIONS = [
-    "records are finite float64 (series / final-value / laws also int64-dtype, list, strided-view, negative-stride and read-only "
-    "variants; narrow integer dtypes and float32 records are handled centrally, not here), 2 <= n <= 5000 drawn by Hypothesis plus "
+    "records are finite float64 (series / final-value / laws / mid-range also int64, int32, int16, int8 dtype - the narrow ones at the "
+    "full range of the dtype with the most negative sample at the dtype's minimum, oracle at the exact values -, list, strided-view, "
+    "negative-stride and read-only variants; float32 records are out of scope; standardised CAV takes float records only, its domain "
+    "is tied to 0.025 g), 2 <= n <= 5000 drawn by Hypothesis plus "
     "60000..150000 (one case in 40), laddered lengths 2000..300000 (thorough 2 000 000) in the mid-range enumerations and "
     "2^20..2^21 in giant-records; |a| <= 1e9, dt in [1e-4, 2]",
     "series / final-value / laws / mid-range hand the time step over as a Python float, np.float64, np.float32 or a 0-d array of either "
@@ -180,6 +182,9 @@ def _match_final(ctx, name, got, refs, what=""):
 # shared helpers
 
 DT_FORMS = ["py", "py", "np64", "f32", "0d32", "0d64"]
+# record containers: int64, list, strided / reversed / read-only views, and the narrow integer dtypes of raw digitiser counts
+# (gen.narrow_int: full range of the dtype, the most negative sample = the dtype's minimum; the oracle uses the exact values)
+CONTAINERS = ["int", "list", "int", "list", "view", "negstride", "readonly", "int16", "int16", "int32", "int8"]
 
 
 def _cases_basic(allow_int=True, max_n=5000):
@@ -189,7 +194,7 @@ def _cases_basic(allow_int=True, max_n=5000):
             # very long records (tens of minutes at 100-200 Hz)
             spec = draw(gen.record_specs(min_n=60000, max_n=150000, kinds=["noise", "quake", "walk", "sines"], allow_zero_runs=False))
         else:
-            spec = draw(gen.record_specs(min_n=2, max_n=max_n, allow_int=allow_int))
+            spec = draw(gen.record_specs(min_n=2, max_n=max_n, allow_int=CONTAINERS if allow_int else False))
         # how the time step is handed over: Python float, NumPy scalar or 0-d array, double or single precision
         # (a float32 step read from a binary header IS the step: the oracle uses its exact double value)
         dtv = draw(st.sampled_from(DT_FORMS))
@@ -214,6 +219,8 @@ def _dt(case):
 
 def _record(case):
     spec = case["rec"]
+    if spec.get("as") in gen.NARROW_DTYPES:
+        return gen.narrow_int(gen.build(spec), spec["as"])   # (int16 / int32 / int8 container, its exact values)
     arg = gen.as_container(spec, gen.build(spec))
     a = np.array(arg, dtype=float)  # what the library sees (the int variant rounds)
     return arg, a
@@ -274,7 +281,7 @@ def series(case, ctx):
 # clause 2: final value = defining quadrature
 
 # in-place operations of the object after which every measure is re-checked
-OPS = ["reset_values", "reset_values_len", "add_constant", "add_series", "add_signal", "remove_average", "remove_poly",
+OPS = ["reset_values", "reset_values_len", "reset_values_int16", "add_constant", "add_series", "add_signal", "remove_average", "remove_poly",
        "butter_pass", "zero_res_vel", "zero_res_disp", "zero_res_disp_vel", "rebase", "roll_acc", "roll_vel", "correct_me",
        "regen_rect", "regen_trap"]
 SLOW_OPS = ("roll_acc", "roll_vel", "correct_me")   # a Python loop over the record
@@ -286,6 +293,10 @@ def _apply_op(asig, op, rs, dt):
     n = asig.npts
     if op == "reset_values":
         asig.reset_values(np.array(asig.values, dtype=float)[::-1] * 0.75 + 0.01 * rs.standard_normal(n))
+    elif op == "reset_values_int16":
+        # value replacement with raw digitiser counts (the object must hold and analyse their exact values)
+        asig.reset_values(gen.narrow_int(np.array(asig.values, dtype=float)[::-1] + 0.3 * rs.standard_normal(n) * float(np.max(np.abs(asig.values))),
+                                         "int16")[0])
     elif op == "reset_values_len":
         m = max(3, int(n * (0.5 + rs.uniform())))
         asig.reset_values(np.cumsum(rs.standard_normal(m)) / math.sqrt(m) + 0.05)
@@ -354,7 +365,7 @@ def _history(ctx, asig, a, dt, seed, count, allow_slow):
         _final_checks(ctx, asig, cur, dt, " after %s" % op, rule=rule or "trap", key=seed)
 
 
-@clause(CLAUSES, "final-value", _cases_basic(), quick=500, thorough=2500,
+@clause(CLAUSES, "final-value", _cases_basic(), quick=500, thorough=2000,
         rule="same generator; then 3-4 in-place operations of the object in a case-dependent order, every check repeated after each; "
              "non-trivial = record has >= 2 sign changes",
         oracle="reference model: long-double panel sums of the defining quadratures (pi/(2*9.81)*trapz(a^2), trapz|a|, "
@@ -455,13 +466,15 @@ def _final_checks(ctx, asig, a, dt, tag, rule="trap", key=0, raw_arg=None, raw_d
 
 @st.composite
 def _law_cases(draw):
-    spec = draw(gen.record_specs(min_n=2, max_n=3000, allow_int=True))
+    spec = draw(gen.record_specs(min_n=2, max_n=3000, allow_int=CONTAINERS))
     case = {"rec": spec, "dt": draw(gen.dts(1e-4, 2.0)), "dtv": draw(st.sampled_from(DT_FORMS))}
     if draw(st.booleans()):
-        case["k2"] = draw(st.one_of(st.integers(-8, 8), st.integers(-40, 40)).filter(lambda k: k != 0))
+        case["k2"] = draw(st.one_of(st.integers(-8, 8), st.integers(11, 40), st.integers(-40, -11)).filter(lambda k: k != 0))
         case["neg"] = draw(st.booleans())
     else:
-        case["alpha"] = draw(st.one_of(gen.scalars(), gen.scalars(1e-12, 1e12)))
+        sign = draw(st.sampled_from([-1.0, 1.0]))
+        case["alpha"] = draw(st.one_of(gen.scalars(), gen.log_uniform(1e3, 1e12).map(lambda x: sign * x),
+                                       gen.log_uniform(1e-12, 1e-3).map(lambda x: sign * x)))
     case["pad"] = draw(st.one_of(st.integers(0, 8), st.integers(0, 600), st.integers(600, 3000)))
     return case
 
@@ -551,7 +564,7 @@ def _law_checks(ctx, case, arg, a, dt_arg, dt):
                "(== for powers of two, otherwise within the derived rounding bound); appending zeros to the "
                "record with its last sample set to 0 leaves Arias / CAV / integral |a| unchanged (two running-sum bounds), the padded "
                "series has the padded length and is non-decreasing",
-        require={"pow2": 0.2, "general-alpha": 0.2, "pad>0": 0.4, "wide-alpha": 0.1}, min_nontrivial=0.1)
+        require={"pow2": 0.2, "general-alpha": 0.2, "pad>0": 0.4, "wide-alpha": 0.08}, min_nontrivial=0.1)
 def laws(case, ctx):
     arg, a = _record(case)
     dt_arg, dt = _dt(case)
@@ -609,8 +622,15 @@ def _cavdp_cases(draw):
                                  allow_int=["list", "view", "negstride", "readonly"]))
     nwin = (n - 1) // ns + 1
     gains = draw(st.lists(_gain, min_size=nwin, max_size=nwin))
-    return {"ns": ns, "rec": spec, "gains": gains, "norm": draw(st.booleans()),
+    case = {"ns": ns, "rec": spec, "gains": gains, "norm": draw(st.booleans()),
             "dtv": draw(st.sampled_from(["py", "py", "np64", "0d64"])), "pad": draw(st.integers(1, 3 * ns + 2))}
+    if (n - 1) % ns >= 1 and draw(st.booleans()):
+        # the neighbourhood of the record's end: a weak last complete window followed by a strong incomplete second (which
+        # belongs to no window), the sample they share kept at half the gate level
+        gains[-2] = draw(st.sampled_from([0.0, 0.5, 0.9]))
+        gains[-1] = draw(st.sampled_from([1.1, 2.0, 8.0]))
+        case["tail"] = True
+    return case
 
 
 def _cavdp_record(case):
@@ -630,7 +650,10 @@ def _cavdp_record(case):
         if m > 0:
             a = a / m
     idx = np.minimum(np.arange(n) // ns, len(gains) - 1)
-    return a * np.array(gains, dtype=float)[idx] * (GATE * G)
+    out = a * np.array(gains, dtype=float)[idx] * (GATE * G)
+    if case.get("tail"):
+        out[((n - 1) // ns) * ns] = 0.5 * GATE * G
+    return out
 
 
 def _cavdp_bracket(a, ns, dt):
@@ -686,12 +709,13 @@ def _cavdp_padding_law(ctx, a, ns, dt_arg, dt, p, nwin):
                   p, nwin, float(s0[-1]), float(s1[-1])))
 
 
-@clause(CLAUSES, "cav-dp", _cavdp_cases(), quick=600, thorough=2500,
+@clause(CLAUSES, "cav-dp", _cavdp_cases(), quick=600, thorough=2000,
         rule="dt = 1/ns, ns uniform on 1..1000 + common rates to 10 kHz + log-uniform 1001..10000 + the float boundary families (1/dt "
              "rounds below ns; k*ns*dt rounds below k); 2..12 complete seconds (one family 13..300 s), at most 40000 samples, length "
              "exactly k seconds / one sample short of the next window / one over / random; base record of any kind (float array, list, "
              "strided / read-only container) normalised (globally or per second) and multiplied per one-second chunk "
-             "by a gain in {0,.5,.9,1-1e-6,1,1+1e-6,1.1,2,8,40}, U(0,4) or U(4,40) times 0.025 g; dt as float / np.float64 / 0-d; "
+             "by a gain in {0,.5,.9,1-1e-6,1,1+1e-6,1.1,2,8,40}, U(0,4) or U(4,40) times 0.025 g (half of the records with an incomplete last "
+             "second: weak last window, strong incomplete second); dt as float / np.float64 / 0-d; "
              "non-trivial = at least one qualifying and one non-qualifying window",
         oracle="reference model: windows [w*ns,(w+1)*ns], gate max|a|/9.81 >= 0.025 (1e-9 band ambiguous), final value in "
                "[sum(full - last panel), sum full] over qualifying windows (rel 1e-9 + 8 eps n); all zero when no window can qualify; "
@@ -699,7 +723,7 @@ def _cavdp_padding_law(ctx, a, ns, dt_arg, dt, p, nwin):
                "records of whole seconds that end at zero: unchanged by appended zeros (rel 1e-12)",
         require={"recip-rounds-down": 0.03, "exact-duration": 0.25, "dur-rounds-down": 0.04, "mixed-gates": 0.3,
                  "none-qualify": 0.03, "common-rate": 0.08, "ns>1000": 0.05, "windows>12": 0.05, "peak>0.2g": 0.2,
-                 "padding-law": 0.2},
+                 "padding-law": 0.2, "strong-incomplete-second": 0.05},
         min_nontrivial=0.3)
 def cav_dp(case, ctx):
     ns = int(case["ns"])
@@ -732,6 +756,8 @@ def cav_dp(case, ctx):
     if None in states:
         ctx.amb()
         ctx.cls("gate-ambiguous")
+    if states[-1] is False and n > nwin * ns + 1 and np.max(np.abs(a[nwin * ns + 1:])) >= GATE * G:
+        ctx.cls("strong-incomplete-second")
     yes = states.count(True)
     no = states.count(False)
     ctx.cls("mixed-gates" if yes and no else ("all-qualify" if yes and not no else ("none-qualify" if not yes else None)))
@@ -774,7 +800,7 @@ def giant_records(case, ctx):
 # plus sizes aimed at the integer literals of the tree under test); data are a pure function of the case.
 
 MID_KINDS = ["quake", "sines", "walk", "noise"]
-MID_CONTAINERS = ["ndarray", "ndarray", "ndarray", "list", "view", "negstride", "readonly", "int"]
+MID_CONTAINERS = ["ndarray", "ndarray", "ndarray", "list", "view", "negstride", "readonly", "int", "int16", "int32"]
 
 
 def _mid_record(n, seed, kind):
@@ -802,6 +828,8 @@ def _mid_container(a, how):
         return np.array(np.round(a * (1000.0 / max(1e-300, float(np.max(np.abs(a)))))), dtype=np.int64)
     if how == "ndarray":
         return a
+    if how in gen.NARROW_DTYPES:
+        return gen.narrow_int(a, how)[0]
     return gen.as_container({"as": how}, a)
 
 
